@@ -221,7 +221,24 @@ def gen_targeted(W, rng, kind=None):
     def bin_(op, a, b):
         return dict(op=op, a=a, b=b, d=d, t=d)
     kind = kind or rng.choice(["sum-absorb", "sum-absorb", "sum-diags", "chain-scal", "chain-scal", "chain-diags", "flip-chain",
-                               "sandwich-scal", "block", "block", "block", "neg-single", "enabler-chain", "nary", "nary"])
+                               "sandwich-scal", "block", "block", "block", "neg-single", "enabler-chain", "nary", "nary",
+                               "sandwich-nested"])
+    if kind == "sandwich-nested":
+        # SandwichOperator.make with a SandwichOperator as cheese (two or three layers): the buns are chained, in the right order
+        # only if `old_bun @ bun`; buns between different domains and non-commuting square leaves
+        def layer(dd, depth):
+            mids = [m for m in range(len(W.sizes)) if W.connected(dd, m)]
+            m = rng.choice(mids)
+            bun = gen(W, rng, dd, m, rng.choice([0, 0, 1]))
+            if depth <= 0:
+                cheese = None if rng.random() < 0.4 else gen(W, rng, m, m, 0)
+            else:
+                cheese = layer(m, depth - 1)
+            return dict(op="sandwich", bun=bun, cheese=cheese, dt=pick_dt(rng), d=dd, t=dd)
+        e = layer(d, rng.choice([1, 1, 2]))
+        if rng.random() < 0.2:
+            e = dict(op=rng.choice(["adjoint", "neg"]), a=e, d=d, t=d)
+        return e
     if kind == "nary":
         # SumOperator.make / ChainOperator.make called directly with 3..6 operands: the rules that merge the 2nd, 3rd, .. scaling,
         # diagonal or block operand into an accumulated one (sign / transformation bookkeeping across several merges) are not
